@@ -12,6 +12,8 @@ struct Edit {
     end: usize,
     text: String,
     seq: usize,
+    /// N16: the text holds the marker \u{1}; it is replaced by the rewritten text of this source range
+    copy: Option<(usize, usize)>,
 }
 
 struct Cx<'a> {
@@ -97,11 +99,11 @@ impl<'a> Cx<'a> {
     }
     fn insert(&mut self, at: usize, text: impl Into<String>) {
         self.seq += 1;
-        self.edits.push(Edit { start: at, end: at, text: text.into(), seq: self.seq });
+        self.edits.push(Edit { start: at, end: at, text: text.into(), seq: self.seq, copy: None });
     }
     fn replace(&mut self, r: std::ops::Range<usize>, text: impl Into<String>) {
         self.seq += 1;
-        self.edits.push(Edit { start: r.start, end: r.end, text: text.into(), seq: self.seq });
+        self.edits.push(Edit { start: r.start, end: r.end, text: text.into(), seq: self.seq, copy: None });
     }
     fn note(&mut self, rule: &str, at: usize, before: &str, after: &str) {
         let l = self.line(at);
@@ -120,6 +122,13 @@ impl<'a> Cx<'a> {
                 self.pat(&r.pat, true, derefs);
             }
             syn::Pat::Ident(i) => {
+                let nm = i.ident.to_string();
+                if RESERVED.contains(&nm.as_str()) && !(under_ref && i.by_ref.is_none() && i.subpat.is_none()) {
+                    // N14 in patterns of arms / lets / closures
+                    let r = i.ident.span().byte_range();
+                    self.replace(r.clone(), format!("{}__v", nm));
+                    self.note("N14", r.start, &nm, &format!("{}__v", nm));
+                }
                 if under_ref {
                     if let Some(rf) = &i.by_ref {
                         let s = rf.span().byte_range().start;
@@ -768,6 +777,73 @@ impl<'a, 'ast> Visit<'ast> for Cx<'a> {
             }
             return;
         }
+        // N16: Verus loses track of a `&mut` parameter that is changed in the body of an arm with a guard.
+        // `P if g => B, .., _ => D` becomes `P => if g { B } else { D }, .., _ => D` when no arm between the
+        // guarded one and the final `_` can match what P matches (different enum variants), so that a failed
+        // guard can only fall to D. D is copied with its own rewrites applied.
+        fn heads(p: &syn::Pat, out: &mut Vec<String>) -> bool {
+            match p {
+                syn::Pat::Path(pp) => { out.push(pp.path.segments.last().unwrap().ident.to_string()); pp.path.segments.len() >= 2 }
+                syn::Pat::TupleStruct(t) => { out.push(t.path.segments.last().unwrap().ident.to_string()); true }
+                syn::Pat::Struct(t) => { out.push(t.path.segments.last().unwrap().ident.to_string()); true }
+                syn::Pat::Or(o) => o.cases.iter().all(|c| heads(c, out)),
+                syn::Pat::Paren(pp) => heads(&pp.pat, out),
+                syn::Pat::Reference(r) => heads(&r.pat, out),
+                _ => false,
+            }
+        }
+        if n >= 2 && m.arms.iter().any(|a| a.guard.is_some()) {
+            let last = &m.arms[n - 1];
+            if matches!(last.pat, syn::Pat::Wild(_)) && last.guard.is_none() {
+                let d = last.body.span().byte_range();
+                let norm = |r: std::ops::Range<usize>| -> String { self.src[r].split_whitespace().collect::<Vec<_>>().join(" ") };
+                let pats: Vec<String> = m.arms.iter().map(|a| norm(a.pat.span().byte_range())).collect();
+                let mut plan: Vec<(usize, usize)> = vec![];
+                let mut k = 0;
+                while k < n - 1 {
+                    if m.arms[k].guard.is_none() { k += 1; continue; }
+                    // a run of guarded arms over the same pattern
+                    let mut r = k + 1;
+                    while r < n - 1 && m.arms[r].guard.is_some() && pats[r] == pats[k] { r += 1; }
+                    let mut ok = true;
+                    if r < n - 1 {
+                        let mut hk = vec![];
+                        if !heads(&m.arms[k].pat, &mut hk) { ok = false; }
+                        for j in r..n - 1 {
+                            let mut hj = vec![];
+                            if !heads(&m.arms[j].pat, &mut hj) || hj.iter().any(|h| hk.contains(h)) { ok = false; }
+                        }
+                    }
+                    if ok { plan.push((k, r)); }
+                    k = r;
+                }
+                for (k, r) in plan {
+                    for i in k..r {
+                        let a = &m.arms[i];
+                        let g = &a.guard.as_ref().unwrap().1;
+                        let ar = a.span().byte_range();
+                        let pr = a.pat.span().byte_range();
+                        let gr = g.span().byte_range();
+                        let br = a.body.span().byte_range();
+                        let before = crate::one_line_pub(&self.src[pr.start..br.start]);
+                        if i == k {
+                            self.replace(pr.end..gr.start, " => if ");
+                        } else {
+                            self.replace(ar.start..gr.start, " else if ");
+                        }
+                        self.replace(gr.end..br.start, " { ");
+                        let end = match &a.comma { Some(c) => c.span().byte_range().end, None => br.end };
+                        self.seq += 1;
+                        if i + 1 == r {
+                            self.edits.push(Edit { start: br.end, end, text: " } else { \u{1} },".to_string(), seq: self.seq, copy: Some((d.start, d.end)) });
+                        } else {
+                            self.edits.push(Edit { start: br.end, end, text: " }".to_string(), seq: self.seq, copy: None });
+                        }
+                        self.note("N16", pr.start, &before, "P => if g { B } [else if g2 { B2 }..] else { <copy of the `_` arm> } (guards moved into the arm)");
+                    }
+                }
+            }
+        }
         syn::visit::visit_expr_match(self, m);
     }
 
@@ -1044,7 +1120,32 @@ pub fn rewrite_body(slot: &SlotSpec, found: &Found, retarget: &[(String, String)
             bail!("overlapping rewrites at line {} (construct outside the catalogue)", found.body_line_start + line_of(&text, e.start) - 1);
         }
         out.push_str(&text[pos..e.start]);
-        out.push_str(&e.text);
+        if let Some((cs, ce)) = e.copy {
+            // the copied range, with the rewrites that fall inside it
+            let mut inner = String::new();
+            let mut p = cs;
+            for f in &edits {
+                if f.start >= cs && f.end <= ce {
+                    if f.copy.is_some() {
+                        bail!("nested guard copies (N16) at line {}", found.body_line_start + line_of(&text, f.start) - 1);
+                    }
+                    if f.start < p {
+                        bail!("overlapping rewrites at line {} (construct outside the catalogue)", found.body_line_start + line_of(&text, f.start) - 1);
+                    }
+                    inner.push_str(&text[p..f.start]);
+                    inner.push_str(&f.text);
+                    p = f.end;
+                }
+            }
+            inner.push_str(&text[p..ce]);
+            if inner.contains("//") {
+                bail!("N16: the copied `_` arm contains a comment (line {})", found.body_line_start + line_of(&text, cs) - 1);
+            }
+            let inner = inner.replace('\n', " ");
+            out.push_str(&e.text.replace('\u{1}', &inner));
+        } else {
+            out.push_str(&e.text);
+        }
         pos = e.end;
         // deleted newlines must be kept so that lines do not move
         let removed = text[e.start..e.end].matches('\n').count();
